@@ -77,13 +77,21 @@ type c16Opts struct {
 	SkipDataOracle bool // C17 judges bookkeeping only (faults legitimately cut tunnels short)
 }
 
+// c16ExtraCfg, when set, is applied to every node's configuration by c16BuildMesh (scenarios run
+// one at a time).
+var c16ExtraCfg func(i int, c *config.Config)
+
 // c16BuildMesh builds the topology with a destination server and waits for every route.
 func c16BuildMesh(t testing.TB, tp c16Topo, dest *mkDest, idle time.Duration) (*mkMesh, error) {
 	spec := tp.Spec
 	if idle <= 0 {
 		idle = 30 * time.Second
 	}
+	extra := c16ExtraCfg
 	spec.Cfg = func(i int, c *config.Config) {
+		if extra != nil {
+			extra(i, c)
+		}
 		c.Connections.IdleThreshold = idle
 		if oct, ok := tp.Exits[i]; ok {
 			c.Exit.Enabled = true
